@@ -222,7 +222,10 @@ def _z3_reseeded(assertions, k, want_model, smt2, jobs=()):
         th = threading.Thread(target=watch, daemon=True)
         th.start()
     try:
-        r3 = s2.check()
+        try:
+            r3 = s2.check()
+        except z3.Z3Exception:
+            r3 = z3.unknown
     finally:
         stop.set()
         if th is not None:
@@ -254,7 +257,10 @@ def _solve(assertions, want_model=None):
     s = _mk_solver(min(QUICK_FIRST_MS, FIRST_TIMEOUT_MS))
     for c in assertions:
         s.add(c)
-    r = s.check()
+    try:
+        r = s.check()
+    except z3.Z3Exception:
+        r = z3.unknown
     if r == z3.unsat:
         return {'status': 'unsat', 'backend': 'z3'}
     smt2 = s.to_smt2()
@@ -325,7 +331,10 @@ class Ctx(object):
 
     # -- path condition ----------------------------------------------------
     def _feasible(self, cond):
-        r = self.solver.check(cond)
+        try:
+            r = self.solver.check(cond)
+        except z3.Z3Exception:
+            return True          # the solver gave up: unknown counts as feasible (sound: more paths)
         return r != z3.unsat
 
     def branch(self, cond):
